@@ -303,6 +303,10 @@ fn run_single_program(
 ) -> i32 {
     let capture = options.capture_output;
     if cl.is_single_and_builtin() {
+        if !builtins::utils::check_redirections(&cl.commands[idx_cmd]) {
+            *cmd_result = CommandResult::error();
+            return unsafe { libc::getpid() };
+        }
         if let Some(cr) = try_run_builtin(sh, cl, idx_cmd, capture) {
             *cmd_result = cr;
             return unsafe { libc::getpid() };
